@@ -125,7 +125,15 @@ impl Check for C05 {
             let ws = if combo % 2 == 0 { Schedule::whole() } else { Schedule::random(&mut sr, total, wfl == Flavour::Sync) };
             let rs = if i % 4 == 0 { Schedule::whole() } else { Schedule::random(&mut sr, total, fl == Flavour::Sync) };
             let key = key_of(&mut cf);
-            return json!({"kind": "sweep", "wrong_expect": [], "label": format!("{}:{}:len={:#x}", exp.name(), dir.name(), len),
+            // every other typed-helper run of the sweep asks for ANOTHER type when the swept message arrives: the helper must
+            // refuse it, consume exactly its bytes whatever their number, and the session must go on in step
+            let wrong: Vec<Value> = if entry == "expect" && i % 2 == 0 && warden.as_array().map(|a| !a.is_empty()).unwrap_or(false) {
+                let other = type_names(exp, dir).iter().find(|n| **n != crate::c02::warden_name(dir)).copied().unwrap_or("");
+                vec![json!([1, other])]
+            } else {
+                vec![]
+            };
+            return json!({"kind": "sweep", "wrong_expect": wrong, "label": format!("{}:{}:len={:#x}", exp.name(), dir.name(), len),
                 "exp": exp.name(), "dir": dir.name(), "frames": frames, "names": names, "warden": warden, "key": hex(&key),
                 "wflavour": wfl.name(), "rflavour": fl.name(), "rentry": entry, "wsched": sched_json(&ws), "rsched": sched_json(&rs)});
         }
